@@ -25,9 +25,15 @@ def gen_narrow_float(rng):
             k = rng.randint(1, (1 << bits) - 1) * rng.choice([1, -1]); j = rng.randint(0, 14 if half else 24)
             vs.append(Fraction(k, 1 << j))
         scale = Fraction(rng.choice([1, 1, -1, 2, 4]), 2 ** rng.randint(0, 2)); bias = Fraction(rng.randint(-2048, 2048), 2 ** rng.randint(0, 3))
+        if rng.random() < 0.4:
+            # no bias, and a quotient v / scale that leaves the RANGE of the carrier (beyond its largest number, or below its smallest one)
+            bias = Fraction(0); scale = Fraction(rng.choice([1, -1]) * 2 ** rng.choice([-4, -3, -2, -1, 2, 3, 4, 6]))
+            lim = (15, -24) if half else (127, -149)
+            if scale < 1 and abs(scale) < 1: vs = [Fraction(rng.choice([1, -1]) * rng.randint(1 << (bits - 1), (1 << bits) - 1) * 2 ** (lim[0] - bits + 1 - rng.randint(0, 1))) for _ in range(n)] if half else vs
+            else: vs = [Fraction(rng.choice([1, -1]) * rng.randint(1, 3), 2 ** (-lim[1] - rng.randint(0, 1))) for _ in range(n)] if half else vs
         if scale == 1 and bias == 0: continue
         ts = [(v - bias) / scale for v in vs]
-        if not all(exact_double(v) and exact_double(v - bias) and exact_double(t) and S.in_core(nf, t) and abs(v) < 60000 for v, t in zip(vs, ts)): continue
+        if not all(exact_double(v) and exact_double(v - bias) and exact_double(t) and S.in_core(nf, t) and abs(v) <= 65504 for v, t in zip(vs, ts)): continue
         return {'s': s_, 'nw': nw, 'nf': nf, 'r': rng.choice(RMODES), 'o': rng.choice(OMODES), 'scale': scale, 'bias': bias, 'vs': vs, 'ts': ts,
                 'route': rng.choice(['ctor', 'call', 'set_val']), 'carrier': 'np:float16' if half else 'np:float32', 'pyint_params': rng.random() < 0.5}
 
